@@ -45,7 +45,7 @@ template <class F, int D> struct Sym : SymA<F, D> {
 };
 
 // ------------------------------------------------------------------------------------------------ construction / access / conversion
-template <class F, int D> static void t_ctor() {
+template <class F, int D> __attribute__((flatten)) static void t_ctor() {
   Sym<F, D> x; typedef VectorT<F, D> V;
   for (int i = 0; i < D; ++i) V_ASSERT(same(x.va[(size_t)i], x.a[i]) && same(x.vb[(size_t)i], x.b[i]) && same(x.va.data()[i], x.a[i]));
   V u(x.s), w = V::vectorized(x.s), z(x.va);
@@ -75,7 +75,7 @@ template <class F, int D> static void t_ctor() {
 }
 
 // ------------------------------------------------------------------------------------------------ + - negation, comparison, order
-template <class F, int D> static void t_lin() {
+template <class F, int D> __attribute__((flatten)) static void t_lin() {
   Sym<F, D> x; typedef VectorT<F, D> V;
   V sum = x.va + x.vb, dif = x.va - x.vb, neg = -x.va;
   V pe(x.va); V &r1 = (pe += x.vb);
@@ -104,12 +104,8 @@ template <class F, int D> static void t_lin() {
 }
 
 // ------------------------------------------------------------------------------------------------ reductions, minimize / maximize (no NaN)
-template <class F, int D> static void t_red() {
+template <class F, int D> __attribute__((flatten)) static void t_red() {
   Sym<F, D> x; typedef VectorT<F, D> V;
-  // sum of components and mean: same association order (left to right), any bit pattern
-  F sum = x.a[0];
-  for (int i = 1; i < D; ++i) sum = sum + x.a[i];
-  V_ASSERT(same(x.va.mean(), sum / (F)D));
   v_assume(!x.has_nan2());
   F mx = x.va.max(), mn = x.va.min(), mxa = x.va.max_abs(), mna = x.va.min_abs(), l8 = x.va.l8_norm();
   bool mx_att = false, mn_att = false, mxa_att = false, mna_att = false;
@@ -146,20 +142,19 @@ template <class F, int D> static void t_red() {
   v_witness("fp red: end");
 }
 
-// mean_abs: (|x_0| + |x_1| + ...) / DIM, left to right
-template <class F, int D> static void t_meanabs() {
+// mean: (x_0 + x_1 + ...) / DIM and mean_abs: (|x_0| + |x_1| + ...) / DIM, left to right, any bit pattern
+template <class F, int D> __attribute__((flatten)) static void t_mean() {
   SymA<F, D> x;
-  v_assume(!x.has_nan());
-  F asum = fabs_(x.a[0]);
-  for (int i = 1; i < D; ++i) asum = asum + fabs_(x.a[i]);
-  F got = x.va.mean_abs(), want = asum / (F)D;
-  V_ASSERT(got == want);
-  v_witness("fp mean_abs");
+  F sum = x.a[0], asum = std::abs(x.a[0]);
+  for (int i = 1; i < D; ++i) { sum = sum + x.a[i]; asum = asum + std::abs(x.a[i]); }
+  V_ASSERT(same(x.va.mean(), sum / (F)D));
+  V_ASSERT(same(x.va.mean_abs(), asum / (F)D));
+  v_witness("fp mean/mean_abs");
 }
 
 // L1 (Manhattan) norm = sum |x_i|.  Asserted here: a NECESSARY condition of every rounding of that sum (a floating-
 // point sum of non-negative terms is >= each term), for finite components.
-template <class F, int D> static void t_l1() {
+template <class F, int D> __attribute__((flatten)) static void t_l1() {
   SymA<F, D> x;
   for (int i = 0; i < D; ++i) v_assume(x.a[i] == x.a[i] && fabs_(x.a[i]) < (F)1e30);
   F l1 = x.va.l1_norm();
@@ -170,7 +165,7 @@ template <class F, int D> static void t_l1() {
 }
 
 // ------------------------------------------------------------------------------------------------ products
-template <class F, int D> static void t_mul() {
+template <class F, int D> __attribute__((flatten)) static void t_mul() {
   Sym<F, D> x; typedef VectorT<F, D> V;
   V cw = x.va * x.vb, sr = x.va * x.s, sl = x.s * x.va;
   V ce(x.va); ce *= x.vb;
@@ -181,7 +176,7 @@ template <class F, int D> static void t_mul() {
   }
   v_witness("fp component/scalar products");
 }
-template <class F, int D> static void t_dot() {
+template <class F, int D> __attribute__((flatten)) static void t_dot() {
   Sym<F, D> x;
   F dot = x.a[0] * x.b[0], sq = x.a[0] * x.a[0];
   for (int i = 1; i < D; ++i) { dot = dot + x.a[i] * x.b[i]; sq = sq + x.a[i] * x.a[i]; }
@@ -191,7 +186,7 @@ template <class F, int D> static void t_dot() {
   V_ASSERT(same(x.va.sqrnorm(), sq));
   v_witness("fp dot/sqrnorm");
 }
-template <class F> static void t_cross() {
+template <class F> __attribute__((flatten)) static void t_cross() {
   Sym<F, 3> x; typedef VectorT<F, 3> V;
   const F *a = x.a, *b = x.b;
   F c0 = a[1] * b[2] - a[2] * b[1];
@@ -205,7 +200,7 @@ template <class F> static void t_cross() {
 }
 
 // ------------------------------------------------------------------------------------------------ division
-template <class F, int D> static void t_div() {
+template <class F, int D> __attribute__((flatten)) static void t_div() {
   Sym<F, D> x; typedef VectorT<F, D> V;
   V cw = x.va / x.vb, sr = x.va / x.s;
   V ce(x.va); ce /= x.vb;
@@ -222,34 +217,57 @@ template <class F, int D> static void t_div() {
 }
 
 // ------------------------------------------------------------------------------------------------ euclidean norm, normalisation (modulo sqrt)
-template <class F, int D> static void t_norm() {
-  SymA<F, D> x; typedef VectorT<F, D> V;
-  F sq = x.a[0] * x.a[0];
-  for (int i = 1; i < D; ++i) sq = sq + x.a[i] * x.a[i];
-  F n = std::sqrt(sq);
-  V_ASSERT(same(x.va.norm(), n) && same(x.va.length(), n));
-  V nz = x.va.normalized();
-  V nn(x.va); V &r1 = nn.normalize();
-  V nc(x.va); V &r2 = nc.normalize_cond();
-  V_ASSERT(&r1 == &nn && &r2 == &nc);
-  for (int i = 0; i < D; ++i) {
-    V_ASSERT(same(nz[(size_t)i], x.a[i] / n) && same(nn[(size_t)i], x.a[i] / n));
-    V_ASSERT(same(nc[(size_t)i], n != (F)0 ? x.a[i] / n : x.a[i]));
-  }
-  if (n != (F)0) v_witness("fp norm: non-zero norm");
+template <class F, int D> static inline F o_norm(const F *a) {
+  F sq = a[0] * a[0];
+  for (int i = 1; i < D; ++i) sq = sq + a[i] * a[i];
+  return std::sqrt(sq);
+}
+template <class F, int D> __attribute__((flatten)) static void t_norm() {
+  SymA<F, D> x;
+  F n = o_norm<F, D>(x.a);
+  V_ASSERT(same(x.va.norm(), n));
+  V_ASSERT(same(x.va.length(), n));
   v_witness("fp norm");
+}
+template <class F, int D> __attribute__((flatten)) static void t_normalized() {
+  SymA<F, D> x; typedef VectorT<F, D> V;
+  F n = o_norm<F, D>(x.a);
+  V nz = x.va.normalized();
+  for (int i = 0; i < D; ++i) V_ASSERT(same(nz[(size_t)i], x.a[i] / n));
+  v_witness("fp normalized");
+}
+template <class F, int D> __attribute__((flatten)) static void t_normalize() {
+  SymA<F, D> x; typedef VectorT<F, D> V;
+  F n = o_norm<F, D>(x.a);
+  V nn(x.va); V &r1 = nn.normalize();
+  V_ASSERT(&r1 == &nn);
+  for (int i = 0; i < D; ++i) V_ASSERT(same(nn[(size_t)i], x.a[i] / n));
+  v_witness("fp normalize");
+}
+template <class F, int D> __attribute__((flatten)) static void t_normalize_cond() {
+  SymA<F, D> x; typedef VectorT<F, D> V;
+  F n = o_norm<F, D>(x.a);
+  V nc(x.va); V &r2 = nc.normalize_cond();
+  V_ASSERT(&r2 == &nc);
+  for (int i = 0; i < D; ++i) V_ASSERT(same(nc[(size_t)i], n != (F)0 ? x.a[i] / n : x.a[i]));
+  if (n != (F)0) v_witness("fp normalize_cond: non-zero norm");
+  if (n == (F)0) v_witness("fp normalize_cond: zero norm");
+  v_witness("fp normalize_cond");
 }
 
 #define ENTRIES(F, D, tag) \
   extern "C" void harness_ctor_##tag() { t_ctor<F, D>(); } \
   extern "C" void harness_lin_##tag() { t_lin<F, D>(); } \
   extern "C" void harness_red_##tag() { t_red<F, D>(); } \
-  extern "C" void harness_meanabs_##tag() { t_meanabs<F, D>(); } \
+  extern "C" void harness_mean_##tag() { t_mean<F, D>(); } \
   extern "C" void harness_l1_##tag() { t_l1<F, D>(); } \
   extern "C" void harness_mul_##tag() { t_mul<F, D>(); } \
   extern "C" void harness_dot_##tag() { t_dot<F, D>(); } \
   extern "C" void harness_div_##tag() { t_div<F, D>(); } \
-  extern "C" void harness_norm_##tag() { t_norm<F, D>(); }
+  extern "C" void harness_norm_##tag() { t_norm<F, D>(); } \
+  extern "C" void harness_normalized_##tag() { t_normalized<F, D>(); } \
+  extern "C" void harness_normalize_##tag() { t_normalize<F, D>(); } \
+  extern "C" void harness_normalize_cond_##tag() { t_normalize_cond<F, D>(); }
 ENTRIES(float, 2, f2) ENTRIES(float, 3, f3) ENTRIES(float, 4, f4)
 ENTRIES(double, 2, d2) ENTRIES(double, 3, d3) ENTRIES(double, 4, d4)
 extern "C" void harness_cross_f3() { t_cross<float>(); }
